@@ -5,7 +5,7 @@
 //!   ereq chunk=<c> bs=<block> max=<max_iop> <ranges>  LanceEncodingsIo::submit_request (read_chunk_size = c) on top of it
 //!        -> `ok n=<buffers> iops=<issued> <len>:<hash>;…` | `panic` | `err` | `hang`
 //!   q …                                                IoQueue probe (see `exec_q`)
-//!   conc cap=<c> buf=<b> bs=<block> max=<m> order=<perm> | <prio>:<ranges> | …   black-box: several requests in flight
+//!   conc cap=<c> buf=<b> bs=<block> max=<m> mode=<join|seq|drop> | <prio>:<ranges> | …   black-box: several requests in flight
 //! <ranges> = `s-e,s-e,…` or `-` (no range).  The file is FILE_LEN bytes, byte i = (i*i + 7*i + 3) % 251.
 
 use std::collections::HashMap;
@@ -342,9 +342,9 @@ impl Prop for C30 {
     }
     fn budget(&self, tier: Tier) -> usize {
         match tier {
-            Tier::Quick => 2400,
-            Tier::Thorough => 60_000,
-            Tier::Search => 20_000,
+            Tier::Quick => 30_000,
+            Tier::Thorough => 1_000_000,
+            Tier::Search => 150_000,
         }
     }
     fn rule(&self) -> String {
